@@ -639,6 +639,9 @@ func (d *Defs) walkTy(s *Src, defIdx int, f func(string)) {
 		}
 	case SOneOfScalars:
 		f("oneOfScalars")
+		if d.srcEnumLikeUnion(s) {
+			f("union.consts")
+		}
 		for _, a := range s.Alts {
 			d.walkTy(a, defIdx, f)
 		}
